@@ -57,6 +57,10 @@ class Block:
         self.generics = None
         self.nowhere = False
         self.selfmut = False
+        self.orsplit = False
+        self.blockarms = False
+        self.qmark = False
+        self.unless = {}
         self.spec = []            # list of (text, tline)
         self.loops = {}           # n -> list of (text, tline)
         self.ats = []             # (anchor, where, nth, [(text,tline)])
@@ -125,6 +129,8 @@ def parse_template(path):
             pr = BT.findall(rest)
             kv, _ = parse_kv(BT.sub('', rest).replace('=>', ''))
             cur.substs.append((pr[0], pr[1], kv.get('rule', 'S')))
+            if len(pr) > 2:
+                cur.unless[pr[0]] = pr[2]
         elif word == 'attr':
             cur.attrs.append(rest)
         elif word == 'param':
@@ -138,6 +144,12 @@ def parse_template(path):
             cur.nowhere = True
         elif word == 'selfmut':
             cur.selfmut = True
+        elif word == 'orsplit':
+            cur.orsplit = True
+        elif word == 'blockarms':
+            cur.blockarms = True
+        elif word == 'qmark':
+            cur.qmark = True
         elif word == 'spec':
             section = cur.spec
         elif word == 'loop':
@@ -270,6 +282,10 @@ def extract_fn(repo, blk, meta, mode):
     item = X.erase_async(item, log)
     item = X.closure_underscore(item, log)
     item = X.desugar_range_inclusive(item, log)
+    if blk.orsplit:
+        item = X.split_or_arms(item, log)
+    if blk.blockarms:
+        item = X.wrap_arm_bodies(item, log)
     for pat, rep in assoc:
         item, cnt = X.subst_tokens(item, pat, rep, log, 'R2')
         item = X.relex(item)
@@ -277,7 +293,15 @@ def extract_fn(repo, blk, meta, mode):
         item, cnt = X.subst_tokens(item, pat, rep, log, rule)
         item = X.relex(item)
         if cnt == 0 and (pat, rep, rule) in blk.substs and 'optional' not in rule:
+            guard = blk.unless.get(pat)
+            flat = re.sub(r'\s+', '', text(item))
+            if guard is not None and not re.search(guard, flat):
+                # the construct the pattern stands for is gone from the function altogether: go on without it
+                log.append((rule, 'pattern `%s` absent and nothing matching /%s/ left in the function: no substitution' % (pat, guard), src_line))
+                continue
             raise X.LostAnchor('%s::%s: substitution pattern `%s` not found' % (rel, kv['name'], pat))
+    if blk.qmark:
+        item = X.desugar_qmark(item, log)
     # locate pieces again in the rewritten item
     f2 = X.find_fn(item, kv['name'])
     fn_i, name_i, bo, bc = f2['fn'], f2['name'], f2['body_open'], f2['body_close']
